@@ -3,7 +3,7 @@
 From Coq Require Import ZArith List Bool Arith Lia.
 From Romea Require Import WrapGridModel WrapGridImp.
 Import ListNotations.
-Open Scope Z_scope.
+Local Open Scope Z_scope.
 
 Definition inrange (t : ty) (z : Z) : Prop :=
   match t with
